@@ -15,7 +15,7 @@ class StackFrame:
         # Parameters become visible only through vars, once the routine has
         # been entered. While the arguments of a call are being evaluated,
         # the callee's partly-built parameter list must not hide anything.
-        for place in (self.constants, self.vars, self.globals):
+        for place in (self.vars, self.constants, self.globals):
             if identifier in place:
                 return place[identifier]
         return None
@@ -57,7 +57,7 @@ class CallStack:
 
     def reset(self, constants=None) -> None:
         self._top = StackFrame()
-        self._top.constants = constants or {}
+        self._top.constants = constants if constants is not None else {}
 
     def get_top(self):
         return self._top
